@@ -300,8 +300,15 @@ def run_history(seed, knobs=None):
         def next_page(mon):
             cross = rng.random() < 0.3
             outs = mon.outcomes()
-            if not outs or outs[-1][0] != 'cb' or mon.epoch >= 4:
+            if not outs or mon.epoch >= 5:
                 return False
+            refetch = False
+            if outs[-1][0] != 'cb':
+                # a LATER page fetch failed (client timeout, server error, no host): while the paging state of the previous page is still there
+                # the application may fetch that page again on the same future (a failed first page leaves nothing to resume)
+                if mon.epoch == 0 or getattr(mon, 'refetches', 0) >= 2:
+                    return False
+                refetch = True
             if not cross:
                 # no answer of this epoch crosses into the next one: release what is held and deliver it first
                 for h in held(('hold', 'late', 'hold-error'), mon.uid):
@@ -315,6 +322,9 @@ def run_history(seed, knobs=None):
             plan.epoch_of[mon.uid] = mon.epoch
             mon.future.start_fetching_next_page()
             count('later_page_fetches')
+            if refetch:
+                mon.refetches = getattr(mon, 'refetches', 0) + 1
+                count('page_fetches_repeated_after_a_failed_fetch')
             return True
 
         if burst:
@@ -539,5 +549,5 @@ def run(ctx):
     ctx.floor_distinct = 120 if ctx.quick else 2000
     ctx.floor_counters = {"histories": 150, "epochs_with_single_completion": 150, "registrations_compared": 300, "late_registrations_checked": 80,
                           "result_calls_compared": 100, "quiescence_checks_all_messages_answered": 150, "retry_decisions": 50,
-                          "later_page_fetches": 20, "timeout_elapsed_checks": 150, "burst_histories": 40,
+                          "later_page_fetches": 20, "timeout_elapsed_checks": 150, "burst_histories": 40, "page_fetches_repeated_after_a_failed_fetch": 12,
                           "burst_answers_released_together": 80}
